@@ -1,0 +1,47 @@
+//go:build verif
+
+package rulelist
+
+// Contracts for govc (see /verif/DESIGN.md).  Comment-only file.
+
+//@ import urlfilter github.com/AdguardTeam/urlfilter
+//@ import filterlist github.com/AdguardTeam/urlfilter/filterlist
+//@ import refreshable github.com/AdguardTeam/AdGuardDNS/internal/filter/internal/refreshable
+
+//@ immutable Refreshable.*, filter.cache, filter.id, filter.svcID, filter.urlFilterID
+
+// The result cache forgets everything on Clear (see C12).
+//@ ghost cacheClears map[any]int
+//@ interface ResultCache method Clear
+//@   modifies cacheClears[this]
+//@   ensures cacheClears[this] == old(cacheClears[this]) + 1
+
+// ---------------------------------------------------------------------------
+// C13: a failed refresh keeps the previous, complete rule set; a successful
+// one installs an engine built from exactly the text that was downloaded.
+
+//@ pred RL(f *Refreshable) = f != nil && f.filter != nil && f.refr != nil && f.logger != nil && f.mu != nil && ref(f.filter.cache) != 0 &&
+//@        f.refr.logger != nil && f.refr.http != nil && f.refr.url != nil
+
+// rlRefreshOK: the latest rule-list refresh succeeded.
+//@ ghost rlRefreshOK bool
+//@ func (*Refreshable).Refresh
+//@   property C13
+//@   requires RL(f)
+//@   modifies f.filter.engine, replaceCalls, replaces, cleanups, sbLen, copyFailed, lastRefreshText, storageText, engineText, cacheClears, rlRefreshOK
+//@   ghostset rlRefreshOK = err == nil
+//@   ensures rlRefreshOK == (err == nil)
+//@   ensures failed-refresh-keeps-the-previous-rules: err != nil ==> f.filter.engine == old(f.filter.engine) &&
+//@             cacheClears[f.filter.cache] == old(cacheClears[f.filter.cache])
+//@   ensures new-rules-are-the-downloaded-text: err == nil ==> f.filter.engine != nil && engineText[f.filter.engine] == lastRefreshText &&
+//@             cacheClears[f.filter.cache] == old(cacheClears[f.filter.cache]) + 1
+
+// Constructors used by the storage (assumed shapes).
+//@ func NewRefreshable
+//@   modifies nothing
+//@   ensures err == nil ==> f != nil && fresh(f) && RL(f) && f.filter.engine != nil
+//@   ensures err != nil ==> f == nil
+//@ func NewManagedResultCache
+//@   modifies nothing
+//@ func (*Refreshable).RulesCount
+//@   modifies nothing
